@@ -131,6 +131,28 @@ Qed.
 Theorem printed_tuple_pattern_arity prefix bs :
   rust_tuple_arity (term_by (comma SCall) (map (pp_binder prefix) bs)) = Some (List.length bs).
 Proof. unfold rust_tuple_arity. rewrite tuple_items_term. destruct (List.length bs) as [|[|n]]; reflexivity. Qed.
+(* ... and none of its tokens is a `.`: a written `..` element of a tuple, tuple-struct or tuple-variant pattern never becomes Rust's
+   REST pattern in the native pattern (as it does in a slice pattern, Print.pp_part SPRest), so rustc checks the arity exactly *)
+Definition is_dot (t : tok) : bool := match t with TPunct c _ _ => Ascii.eqb c "." | _ => false end.
+Theorem printed_tuple_pattern_has_no_rest prefix bs :
+  forallb (fun t => negb (is_dot t)) (term_by (comma SCall) (map (pp_binder prefix) bs)) = true.
+Proof.
+  induction bs as [|b bs IH]; [reflexivity|].
+  cbn [map term_by flat_map] in *. unfold term_by in IH. rewrite forallb_app, IH.
+  destruct b as [i|]; reflexivity.
+Qed.
+Theorem printed_variant_pattern_has_no_rest sp prefix bs :
+  forallb (fun t => negb (is_dot t)) (sep_by (comma sp) (map (pp_binder prefix) bs)) = true.
+Proof.
+  induction bs as [|b bs IH]; [reflexivity|].
+  cbn [map sep_by] in *. destruct (map (pp_binder prefix) bs) as [|y r] eqn:E.
+  - destruct b; reflexivity.
+  - rewrite !forallb_app, IH. destruct b; reflexivity.
+Qed.
+(* the contrast: a slice pattern's `..` IS printed as the rest pattern *)
+Example slice_rest_is_printed_as_rest : existsb is_dot (pp_part SPRest) = true.
+Proof. reflexivity. Qed.
+
 (* why the separator-only form was wrong: one binding between parentheses is a parenthesised pattern *)
 Theorem separator_only_one_tuple_is_no_tuple_pattern prefix b :
   rust_tuple_arity (sep_by (comma SCall) (map (pp_binder prefix) [b])) = None.
